@@ -444,7 +444,9 @@ def xsum(*args, func=np.sum):
     return func(inp[~np.isnan(inp)])
 
 
-FUNCTIONS['PRODUCT'] = wrap_func(functools.partial(xsum, func=np.prod))
+FUNCTIONS['PRODUCT'] = wrap_func(functools.partial(
+    xsum, func=lambda v: np.prod(v) if len(v) else 0.0  # No number: 0.
+))
 FUNCTIONS['SUM'] = wrap_func(xsum)
 FUNCTIONS['SUMIF'] = wrap_func(functools.partial(xfilter, xsum))
 FUNCTIONS['SUMSQ'] = wrap_func(functools.partial(
